@@ -209,6 +209,39 @@ Section Docs.
     split; [exact Hinv2|]. split; [exact Hext|]. split; [reflexivity|].
     exists di. split; [eapply INV_ext; eauto|]. split; [exact Hroot|exact Hlex].
   Qed.
+  (* the state in which the references of a freshly identified document are resolved *)
+  Lemma INV_add_doc st s b d7 di :
+    INV st -> (forall p x, In (p, x) (all_sub s) -> good_node x) -> resolveURIs s d7 b = Ok di ->
+    exists ru, lookup_path [] (di_uri di) = Some ru /\ DocLex di b /\ di_root di = s /\
+      INV (mkR (r_docs st ++ [di]) ((uri_string ru, length (r_docs st)) :: (uri_string b, length (r_docs st)) :: r_cache st) (r_refs st) (r_calls st)).
+  Proof.
+    intros Hinv Hgood Eu.
+    destruct (resolveURIs_lex s d7 b di Hgood Eu) as (Htab & Hroot & Hd7).
+    assert (Hlex : DocLex di b) by (unfold DocLex; rewrite Hroot, Hd7; exact Htab).
+    assert (Hhas : has [] (di_uri di)).
+    { assert (Hw : walk_res s (ru_walk (size s) (mkDoc s d7 [(uri_string b, [])] [] [([], b)] []) [] s [])
+                     (mkDoc s d7 [(uri_string b, [])] [] [([], b)] []) (all_sub_fuel (size s) [] s)).
+      { apply ru_walk_ok; [apply le_n|exact Hgood|reflexivity| |apply has_self].
+        split; cbn [di_base di_uris di_uri]; [intros q b0 []|intros u q [[= <- <-]|[]]; cbn [subschema_at]; discriminate]. }
+      unfold resolveURIs in Eu. rewrite Eu in Hw. cbn [walk_res] in Hw. destruct Hw as (_ & Hkeep & _). apply Hkeep. apply has_self. }
+    destruct Hhas as [ru Hru]. exists ru. split; [exact Hru|]. split; [exact Hlex|]. split; [exact Hroot|].
+    assert (Eru : ru = root_uri di b).
+    { destruct Htab as (_ & TU & _). unfold root_uri. rewrite Hroot, Hd7. eapply Lex_root_uri. apply TU; [exact Hru|discriminate]. }
+    assert (Hd1 : nth_error (r_docs st ++ [di]) (length (r_docs st)) = Some di).
+    { rewrite nth_error_app2 by lia. now rewrite Nat.sub_diag. }
+    split; cbn [r_docs r_cache].
+    - intros j dj Hj. destruct (Nat.lt_ge_cases j (length (r_docs st))) as [Hlt|Hge].
+      + rewrite nth_error_app1 in Hj by exact Hlt. now apply (proj1 Hinv j).
+      + rewrite nth_error_app2 in Hj by exact Hge. destruct (j - length (r_docs st)) as [|j']; [|destruct j'; discriminate].
+        injection Hj as <-. exists b. exact Hlex.
+    - intros us j Hl. cbn [lookup] in Hl.
+      destruct (str_eqb us (uri_string ru)) eqn:E1.
+      { injection Hl as <-. apply str_eqb_eq in E1. exists di, b. split; [exact Hd1|]. split; [exact Hlex|]. right. now rewrite <- Eru. }
+      destruct (str_eqb us (uri_string b)) eqn:E2.
+      { injection Hl as <-. apply str_eqb_eq in E2. exists di, b. split; [exact Hd1|]. split; [exact Hlex|]. now left. }
+      destruct (proj2 Hinv us j Hl) as (dj & bj & Hj & Hlj & Huj). exists dj, bj. split; [|auto].
+      rewrite nth_error_app1; [exact Hj|]. apply nth_error_Some. congruence.
+  Qed.
 End Docs.
 
 (** for the resolver as it runs ([rec] is resolver.resolve itself): a reference out of its document *)
